@@ -102,6 +102,7 @@ type Exec struct {
 	mathHook    func(e *Exec, name string, args []Value) (Value, bool)
 	assumptions map[string]bool
 	harness     string
+	model       Model
 	nAsserts    int
 	nTrivial    int
 	inconclusive []string
@@ -138,16 +139,11 @@ func (e *Exec) runtimePanic(msg string) targetPanic {
 	return targetPanic{IfaceV{T: e.runtimeErrorType(), V: e.mkString("runtime error: " + msg)}}
 }
 
-var rtErrType types.Type
+// a named string type standing for runtime.Error values (the programs under
+// test only format them)
+var rtErrType types.Type = types.NewNamed(types.NewTypeName(token.NoPos, nil, "runtime.Error", nil), types.Typ[types.String], nil)
 
-func (e *Exec) runtimeErrorType() types.Type {
-	if rtErrType == nil {
-		// a named string type with an Error method is not needed by the
-		// programs under test (they only format it); use a distinct named type.
-		rtErrType = types.NewNamed(types.NewTypeName(token.NoPos, nil, "runtime.Error", nil), types.Typ[types.String], nil)
-	}
-	return rtErrType
-}
+func (e *Exec) runtimeErrorType() types.Type { return rtErrType }
 
 func (fr *frame) get(key ssa.Value) Value {
 	switch key := key.(type) {
@@ -225,6 +221,11 @@ func (e *Exec) assume(c *Term) {
 		}
 		return
 	}
+	if e.model != nil {
+		if v, ok := EvalBV(c, e.model); !ok || v == 0 {
+			e.model = nil
+		}
+	}
 	e.S.Push()
 	e.S.Assert(c)
 	e.pcs = append(e.pcs, c)
@@ -239,6 +240,7 @@ func (e *Exec) assume(c *Term) {
 }
 
 // Decide picks a branch for condition c, forking when both sides are feasible.
+// A cached model of the path condition witnesses one side without a query.
 func (e *Exec) Decide(c *Term) bool {
 	if c.IsConst() {
 		return c.C != 0
@@ -270,23 +272,42 @@ func (e *Exec) Decide(c *Term) bool {
 		}
 		return d.Taken
 	}
-	rt := e.S.CheckWith(c)
-	if rt == Unsat {
-		e.trace = append(e.trace, Decision{Taken: false, Forced: true})
-		e.known[c.ID] = false
-		return false
+	feasT, feasF := false, false
+	if e.model != nil {
+		if v, ok := EvalBV(c, e.model); ok {
+			if v != 0 {
+				feasT = true
+			} else {
+				feasF = true
+			}
+		}
 	}
-	if rt == Unknown {
-		e.unknowns++
+	var modelT Model
+	if !feasT {
+		r, m := e.checkModel(c)
+		switch r {
+		case Unsat:
+			e.trace = append(e.trace, Decision{Taken: false, Forced: true})
+			e.known[c.ID] = false
+			return false
+		case Unknown:
+			e.unknowns++
+		}
+		modelT = m
 	}
-	rf := e.S.CheckWith(e.B.Not(c))
-	if rf == Unsat {
-		e.trace = append(e.trace, Decision{Taken: true, Forced: true})
-		e.known[c.ID] = true
-		return true
-	}
-	if rf == Unknown {
-		e.unknowns++
+	if !feasF {
+		r := e.S.CheckWith(e.B.Not(c))
+		if r == Unsat {
+			e.trace = append(e.trace, Decision{Taken: true, Forced: true})
+			e.known[c.ID] = true
+			if modelT != nil {
+				e.model = modelT
+			}
+			return true
+		}
+		if r == Unknown {
+			e.unknowns++
+		}
 	}
 	// fork: follow true, queue false
 	alt := make([]Decision, len(e.trace), len(e.trace)+1)
@@ -294,8 +315,49 @@ func (e *Exec) Decide(c *Term) bool {
 	alt = append(alt, Decision{Taken: false})
 	e.forks = append(e.forks, alt)
 	e.trace = append(e.trace, Decision{Taken: true})
+	if modelT != nil {
+		e.model = modelT
+	}
 	e.assume(c)
 	return true
+}
+
+// checkModel checks PC ∧ c and returns a model over the input variables.
+func (e *Exec) checkModel(c *Term) (Result, Model) {
+	vars := e.modelVars(c)
+	r, vals := e.S.CheckModel(vars, c)
+	if r != Sat {
+		return r, nil
+	}
+	m := Model{}
+	for i, v := range vars {
+		if !vals[i].Valid {
+			return r, nil
+		}
+		m[v.ID] = vals[i].Bits
+	}
+	return r, m
+}
+
+// modelVars: all BV/Bool input variables plus the variables of c.
+func (e *Exec) modelVars(c *Term) []*Term {
+	seen := map[int]bool{}
+	var out []*Term
+	for _, v := range e.inputs {
+		if (v.Sort.K == SBV || v.Sort.K == SBool) && !seen[v.ID] {
+			seen[v.ID] = true
+			out = append(out, v)
+		}
+	}
+	if c != nil {
+		for _, v := range Vars(c) {
+			if (v.Sort.K == SBV || v.Sort.K == SBool) && !seen[v.ID] {
+				seen[v.ID] = true
+				out = append(out, v)
+			}
+		}
+	}
+	return out
 }
 
 // Concretize returns a concrete value for t, forking over all feasible values.
@@ -311,14 +373,27 @@ func (e *Exec) Concretize(t *Term, what string) uint64 {
 		if e.pos < len(e.prefix) {
 			v = e.prefix[e.pos].Val
 		} else {
-			r, vals := e.S.CheckModel([]*Term{t})
-			if r != Sat || !vals[0].Valid {
-				if r == Unsat {
-					panic(pathAbort{"infeasible at concretisation"})
+			got := false
+			if e.model != nil {
+				if mv, ok := EvalBV(t, e.model); ok {
+					v, got = mv, true
 				}
-				panic(errorf("cannot concretise %s: solver %v", what, r))
 			}
-			v = vals[0].Bits
+			if !got {
+				r, m := e.checkModel(t.eqSelf(e.B))
+				if r != Sat || m == nil {
+					if r == Unsat {
+						panic(pathAbort{"infeasible at concretisation"})
+					}
+					panic(errorf("cannot concretise %s: solver %v", what, r))
+				}
+				e.model = m
+				mv, ok := EvalBV(t, m)
+				if !ok {
+					panic(errorf("cannot evaluate %s under the model", what))
+				}
+				v = mv
+			}
 		}
 		c := e.B.Eq(t, e.B.BVConst(v, t.Sort.W))
 		if e.decideVal(c, v) {
@@ -336,19 +411,16 @@ func (e *Exec) decideVal(c *Term, v uint64) bool {
 		e.pos++
 		e.trace = append(e.trace, d)
 		if d.Taken {
-			if !d.Forced {
-				e.assume(c)
-			}
+			e.assume(c)
 		} else {
 			e.assume(e.B.Not(c))
 		}
 		return d.Taken
 	}
-	// c is feasible (v came from a model); is the negation?
+	// c is feasible (v came from a model of the path condition); is the negation?
 	rf := e.S.CheckWith(e.B.Not(c))
 	if rf == Unsat {
 		e.trace = append(e.trace, Decision{Taken: true, Forced: true, Val: v})
-		// record as known so later uses fold
 		e.assume(c)
 		return true
 	}
